@@ -319,7 +319,13 @@ func FamilySpecialValues(thorough bool) []Program {
 	if thorough {
 		atoms = append(atoms, Atom{Path: P(0), Kind: "containsAll", Values: []ast.Value{q}}, Atom{Path: P(0), Kind: "in", Values: []ast.Value{b}})
 	}
+	// a long list (more than sixteen members) one of which holds a comma and a blank
+	long := []ast.Value{str("Doe, John")}
+	for k := 0; k < 20; k++ {
+		long = append(long, str(fmt.Sprintf("v%02d", k)))
+	}
 	var out []Program
+	out = append(out, one("v", And{[]Formula{Atom{Path: P(0), Kind: "in", Values: long}}}), one("v", And{[]Formula{Atom{Path: P(0), Kind: "containsSome", Values: long}}}))
 	for _, a := range atoms {
 		out = append(out,
 			one("v", And{[]Formula{a}}),
